@@ -23,6 +23,9 @@ func (s *Stats) Add(k string, n int) { s.Counters[k] += n }
 
 // unionGroups returns the GPU groups of a pod: labels plus the groups of its live BindRequest.
 func (m *Model) unionGroups(p *v1.Pod) []string {
+	if m.HandoffResidue {
+		return m.GroupsOf(p)
+	}
 	set := map[string]bool{}
 	for _, g := range k8sm.PodGPUGroups(p) {
 		set[g] = true
@@ -86,8 +89,8 @@ func CheckC01(m *Model, events []sched.Event, cycle int, st *Stats) []run.Violat
 			req := k8sm.PodRequest(p)
 			gr := k8sm.GPURequest(p)
 			if IsReservation(p) {
-				if g := p.Labels["runai-gpu-group"]; g != "" {
-					groups[g] = true
+				if g := p.Labels["runai-gpu-group"]; g != "" && !m.HandoffResidue {
+					groups[g] = true // (with HandoffResidue a group counts through its members only)
 				}
 				delete(req, "nvidia.com/gpu")
 			} else if gr.Shared() {
@@ -223,7 +226,7 @@ func CheckC02(m *Model, events []sched.Event, cycle int, st *Stats) []run.Violat
 			continue
 		}
 		if IsReservation(p) {
-			if g := p.Labels["runai-gpu-group"]; g != "" {
+			if g := p.Labels["runai-gpu-group"]; g != "" && !m.HandoffResidue {
 				addShare(g, n, "", 0)
 			}
 			continue
@@ -318,8 +321,15 @@ func CheckC02(m *Model, events []sched.Event, cycle int, st *Stats) []run.Violat
 		gpuQ := node.Status.Allocatable["nvidia.com/gpu"]
 		total := gpuQ.Value()
 		if wholeOnNode[n]+cnt > total {
+			var desc []string
+			for g, x := range groups {
+				if x.node == n {
+					desc = append(desc, fmt.Sprintf("%s%v", g, x.names))
+				}
+			}
+			sort.Strings(desc)
 			out = append(out, Viol("C02", "whole-plus-shared-exceeds-node", "", cycle,
-				"node %s: %d whole GPUs + %d shared devices in use > %d GPUs", n, wholeOnNode[n], cnt, total))
+				"node %s: %d whole GPUs + %d shared devices in use > %d GPUs; groups and their sharers (a group without sharers is held by its reservation pod only): %v", n, wholeOnNode[n], cnt, total, desc))
 		}
 		if total-wholeOnNode[n]-cnt <= 1 {
 			st.Inc("bind_on_gpu_tight_node")
